@@ -668,6 +668,9 @@ func init() {
 				rf := graphinv.RunRangeFirst(c)
 				rf.Floor("node_ids_used_as_indices", 14)
 				res.Merge(rf)
+				it := graphinv.RunIterFamily(c)
+				it.Floor("iterator_results_related_to_idx", 10)
+				res.Merge(it)
 				rl := graphinv.RunRelit(c, "./graph/simple", "./graph/multi")
 				rl.Floor("receiver_rebuilding_literals", 2)
 				res.Merge(rl)
@@ -913,6 +916,8 @@ func dump(argv []string) {
 		res = graphinv.RunDiag(def)
 	case "rangefirst":
 		res = graphinv.RunRangeFirst(def)
+	case "iterfamily":
+		res = graphinv.RunIterFamily(def)
 	case "workquery":
 		res = flagx.RunWorkQuery(def, core.Pkgs(argv[1:]...))
 	case "betascale":
